@@ -534,7 +534,7 @@ def fmt(e, depth=0):
         return "..."
     k = e[0]
     if k == "param":
-        return "p%d" % e[1]
+        return "p%s" % (e[1],)
     if k == "const":
         return str(e[1])
     if k == "cparam":
